@@ -8,6 +8,7 @@ import tm
 from chartgen import chart_text, parse
 from common import limbs, load_impl, rng, td_us
 from props import _notes
+from common import exc_name  # noqa: E402
 
 US_PER_TICK = 4   # iso-scaled tempo: Resolution 1500, B 10000000
 
@@ -36,7 +37,7 @@ def call(chart, inst, diff, form, s, e, time_unit_us=1):
             v = chart.notes_per_second(inst, diff, timedelta(microseconds=s), timedelta(microseconds=e))
         return "", v
     except Exception as ex:  # noqa: BLE001
-        return type(ex).__name__, None
+        return exc_name(ex), None
 
 
 def record(cid, chart, target, track_kind, form, s, e):
